@@ -9,6 +9,7 @@ import Drv.CHash
 import Drv.PM
 import Drv.Frame
 import Drv.Cfg
+import Drv.GNet
 /-! Line-protocol driver: `driver <model>` reads operations on stdin, prints the model's answers. Core-only. -/
 def main (args : List String) : IO UInt32 := do
   let h ← IO.getStdin
@@ -16,6 +17,7 @@ def main (args : List String) : IO UInt32 := do
   | "dq" :: r => Drv.DQ.run r; pure 0
   | "bw" :: r => Drv.BW.run r; pure 0
   | "agg" :: r => Drv.Agg.run r; pure 0
+  | "gnet" :: r => Drv.GNet.run r; pure 0
   | "interp" :: r => Drv.Cfg.run r; pure 0
   | "cfg" :: r => Drv.Cfg.run r; pure 0
   | "frame" :: r => Drv.Frame.run r; pure 0
